@@ -59,6 +59,14 @@ pub(crate) fn push_response(q: &mut IterativeQuery, r: Response) {
     q.responses.push(r)
 }
 
+pub(crate) fn set_closest(q: &mut IterativeQuery, c: ClosestNodes) {
+    q.closest = c;
+}
+
+pub(crate) fn set_responders(q: &mut IterativeQuery, c: ClosestNodes) {
+    q.responders = c;
+}
+
 pub(crate) fn push_candidate(q: &mut IterativeQuery, n: Node) {
     q.closest.add(n)
 }
